@@ -60,11 +60,27 @@ pub fn open_dump(bytes: Vec<u8>, strict: bool) -> String {
     let (tx, rx) = mpsc::channel();
     std::thread::spawn(move || {
         let r = catch(|| {
-            let mut o = OpenOptions::new();
-            if strict {
-                o = o.strict();
-            }
-            match o.open_with(Cursor::new(bytes)) {
+            // the ways of asking for a mode are equivalent: rotate through them (an option set earlier in
+            // the builder chain must survive the later ones)
+            static VARIANT: std::sync::atomic::AtomicUsize = std::sync::atomic::AtomicUsize::new(0);
+            let v = VARIANT.fetch_add(1, std::sync::atomic::Ordering::SeqCst) % 4;
+            let big = 1usize << 20;
+            let r = if strict {
+                match v {
+                    0 => OpenOptions::new().strict().open_with(Cursor::new(bytes)),
+                    1 => cfb::CompoundFile::open_strict(Cursor::new(bytes)),
+                    2 => OpenOptions::new().strict().max_buffer_size(big).open_with(Cursor::new(bytes)),
+                    _ => OpenOptions::new().max_buffer_size(big).strict().open_with(Cursor::new(bytes)),
+                }
+            } else {
+                match v {
+                    0 => OpenOptions::new().open_with(Cursor::new(bytes)),
+                    1 => cfb::CompoundFile::open(Cursor::new(bytes)),
+                    2 => OpenOptions::new().max_buffer_size(big).open_with(Cursor::new(bytes)),
+                    _ => OpenOptions::default().open_with(Cursor::new(bytes)),
+                }
+            };
+            match r {
                 Ok(mut comp) => dump_comp(&mut comp),
                 Err(e) => format!("err {}", err_kind(&e)),
             }
